@@ -21,7 +21,7 @@ def expand(records):
         seen.add(k)
         base["id"] = len(cases)
         cases.append(base)
-        if int_valued(x) and g == "fmt" or any(int_valued(v) for v in a) and g != "fmt":
+        if int_valued(x) and g in ("fmt", "key") or any(int_valued(v) for v in a) and g in ("parse", "math"):
             d = dict(base)
             d["intrep"] = True
             d["id"] = len(cases)
@@ -32,6 +32,14 @@ def expand(records):
         if g == "fmt":
             for c in r["calls"]:
                 add("fmt", c["m"], r["x"], c["a"])
+            for m in r["sites"]:
+                add("key", m, r["x"], [])
+            for sp in r["lits"]:
+                for m in r["forms"]:
+                    add("lit", m, r["x"], [{"k": "str", "u": sp}])
+        elif g == "long":
+            for c in r["calls"]:
+                add("long", c["m"], ZERO, c["a"])
         elif g == "parse":
             for s in r["strs"]:
                 for p in r["parsers"]:
@@ -70,7 +78,7 @@ def run(rep):
     cases = expand(res.records)
     if len(cases) < 5000:
         raise Machinery("enumeration produced only %d cases" % len(cases))
-    rep.spaces.append({"space": "formatting calls x double grid, parsers x numeric-string grammar, parseInt x radix, Math x special values (TLC-enumerated)",
+    rep.spaces.append({"space": "formatting calls x double grid, property-name sites and literal spellings x double grid, parsers x numeric-string grammar, parseInt x radix, long digit strings x radix, Math x special values (TLC-enumerated)",
                        "cases": len(cases), "complete": True})
     # seeded random bit patterns: printing (implicit / toString / a few digit counts) judged by the same specification
     rnd = random.Random(rep.seed)
@@ -143,7 +151,26 @@ def show_case(c):
         return "(%s).%s(%s)%s" % (wire.show(c["x"]), c["m"], args, ir)
     if c["g"] == "math":
         return "Math.%s(%s)%s" % (c["m"], args, ir)
+    if c["g"] == "key":
+        return "%s(%s)%s" % (c["m"], wire.show(c["x"]), ir)
+    if c["g"] == "lit":
+        return "%s<%s> (= %s)" % (c["m"], wire.from_units(c["a"][0]["u"]), wire.show(c["x"]))
+    if c["g"] == "long":
+        return "%s(%s)" % (c["m"], ", ".join(short_text(a) for a in c["a"]))
     return "%s(%s)%s" % (c["m"], args, ir)
+
+
+def short_text(a):
+    """A long digit string is shown by its runs."""
+    if a.get("k") != "str" or len(a["u"]) < 60:
+        return wire.show(a)
+    runs = []
+    for ch in wire.from_units(a["u"]):
+        if runs and runs[-1][0] == ch:
+            runs[-1][1] += 1
+        else:
+            runs.append([ch, 1])
+    return "'" + "".join(ch if n == 1 else "%s{%d}" % (ch, n) for ch, n in runs) + "'"
 
 
 def show_out(o):
